@@ -217,6 +217,8 @@ func checkDistribute(c distCase) error {
 var gClassVals = []gAttr{
 	{Kind: "s", S: "x"}, {Kind: "s", S: "y"}, {Kind: "s", S: "ab"}, {Kind: "s", S: "s1"}, {Kind: "s", S: "3"}, {Kind: "s", S: "na"},
 	{Kind: "i", I: 3}, {Kind: "i", I: 0}, {Kind: "i", I: 12}, {Kind: "b", B: true}, {Kind: "b", B: false},
+	// values that are prefixes / suffixes of each other: (1,12) and (11,2) are different (class, directory) pairs
+	{Kind: "s", S: "1"}, {Kind: "s", S: "11"}, {Kind: "i", I: 1}, {Kind: "i", I: 11}, {Kind: "s", S: "2"},
 }
 
 func genDistCase(rt *rapid.T) distCase {
@@ -275,7 +277,8 @@ func genDistCase(rt *rapid.T) distCase {
 			r.Attrs = append(r.Attrs, a)
 		}
 		if c.DirKey != "" && rapid.IntRange(0, 3).Draw(rt, "has_dir") > 0 {
-			a := rapid.SampledFrom([]gAttr{{Kind: "s", S: "d1"}, {Kind: "s", S: "d2"}, {Kind: "i", I: 7}, {Kind: "s", S: "x"}}).Draw(rt, "dir_value")
+			a := rapid.SampledFrom([]gAttr{{Kind: "s", S: "d1"}, {Kind: "s", S: "d2"}, {Kind: "i", I: 7}, {Kind: "s", S: "x"},
+				{Kind: "s", S: "12"}, {Kind: "s", S: "2"}, {Kind: "i", I: 2}, {Kind: "s", S: "1"}, {Kind: "s", S: "11"}}).Draw(rt, "dir_value")
 			a.Key = c.DirKey
 			r.Attrs = append(r.Attrs, a)
 		}
